@@ -272,12 +272,16 @@ def step (s : Sess) (c : Cmd) : Sess × String × String :=
       let r := DList.reverse l m
       fin1 (setMS s k r.1 a.reverse r.2) "st=-"
     | "size" => fin s s!"st=- out={a.length}" s!"st=- out={l.size}"
-    | "contains" => fin s s!"st=- out={LSeq.contains a v}" s!"st=- out={DList.contains l v}"
-    | "contains_value" => fin s s!"st=- out={LSeq.containsValue (pickCmp c) a v}" s!"st=- out={DList.containsValue (pickCmp c) l v}"
+    | "contains" =>
+      let r := DList.contains l v m
+      fin { s with mem := r.2 } s!"st=- out={LSeq.contains a v}" s!"st=- out={r.1}"
+    | "contains_value" =>
+      let r := DList.containsValue (pickCmp c) l v m
+      fin { s with mem := r.2 } s!"st=- out={LSeq.containsValue (pickCmp c) a v}" s!"st=- out={r.1}"
     | "index_of" =>
-      let r := DList.indexOf (pickCmp c) l v
+      let r := DList.indexOf (pickCmp c) l v m
       let q := LSeq.indexOf (pickCmp c) a v
-      fin s (hOut q.1 q.2) (hOut r.1 r.2)
+      fin { s with mem := r.2.2 } (hOut q.1 q.2) (hOut r.1 r.2.1)
     | "to_array" =>
       let r := DList.toArray l m
       let q := LSeq.toArray false a
@@ -285,7 +289,9 @@ def step (s : Sess) (c : Cmd) : Sess × String × String :=
       let h (st : Stat) (o : Option (List Nat)) := match o with | some xs => s!"{fmtStat st} arr={fmtList xs}" | none => fmtStat st
       -- the harness (the caller) releases the array it was handed
       fin { s with mem := if r.1 == .ok then r.2.2.freeT l.triple else r.2.2 } (h q.1 q.2) (h r.1 r.2.1)
-    | "foreach" => fin s s!"st=- cb={fmtList a}" s!"st=- cb={fmtList (DList.foreach l)}"
+    | "foreach" =>
+      let r := DList.foreach l m
+      fin { s with mem := r.2 } s!"st=- cb={fmtList a}" s!"st=- cb={fmtList r.1}"
     | "reduce" =>
       let r := DList.reduce LSeq.redF l m
       let q := LSeq.reduce LSeq.redF a
